@@ -123,6 +123,25 @@ CHECKS = {
             'refinement re-derives the first-order interface-gap defect of solver.pyx (known finding with a quantitative classifier).',
             'Only numerically converged solves (stable under rtol/100 to 1e-6); the dynamic-liquid planet at omega=1e-3 only; Kamata<->Takeuchi only for static '
             'compressible cores; values on the menu only; not exhaustive over structures.', 'DESIGN.md section 2, C03 and section 8'),
+    'C01': ('exploration', 'E1-lattice',
+            'exhaustive dimensionless lattice of real radial_solver runs (every integrator x starting family x assumption) with a two-tolerance '
+            'convergence gate, judged against the Kelvin/Love closed form',
+            'Every gate-admitted element of the stated lattice (mu~ x loss tangent x l x integrator x 5 start families x r0/R x body x nondimensionalize x w~2; '
+            '77,760 cases x 2 solves thorough, 270 quick) returns k, h, l equal to the closed form within 20*gate + 5*w~2 + (rho g R)^2/(|mu| K) + 1e-7 (per-integrator '
+            'floors for the ill-conditioned Kamata dynamic-incompressible family). The only exceptions are two narrowly signed consequences of the Takeuchi y6 '
+            'slot swap (known findings). Un-admitted cases are counted per (family, integrator) block.',
+            '"Effectively incompressible" means K = 1e7*max(|mu|, rho g R, (rho g R)^2/|mu|) and K <= 1e9|mu|; Kamata-DI with RK45/RK23 is nearly vacuous (7 % / 0.1 % '
+            'admitted); Takeuchi starts with (r0/R)^l < 1e-15 excluded; nothing claimed off the grid; sensitivity to starting vectors is weak by design (C04).',
+            'DESIGN.md section 2, C01 and section 8'),
+    'C04': ('exploration', 'E1-lattice',
+            'exhaustive lattice: span-invariance residual of the real starting vectors under an independent TS72/S74/KMN15 ODE matrix, z(x) against mpmath, '
+            'pairwise start-radius and cross-family end-to-end solves with a convergence gate',
+            'On the stated lattices (2 families x 6 layer kinds x l x 5 materials x omega x r0/R: 5,760 cases; z: 448; r0 legs and cross-family legs) the span of '
+            'the starting vectors is carried into itself by the reference ODE to 1e-9 (+ conditioning), z equals x j_{l+1}/j_l to 1e-11, and Love numbers and '
+            'mantle-base / surface radial functions are independent of r0 in [1e-4, 0.5] and of the family to 1e-7 (1e-6 for Kamata-DI and radial functions). '
+            'Exceptions: three narrowly signed known findings (Takeuchi y6 slot, z Taylor branch, their end-to-end drift).',
+            'Vectors are judged as a family (span), not per vector; series / Bessel domains and low-frequency dynamic liquids are excluded and counted; interior '
+            'slices are not compared (dense-output noise); uniform-sphere gravity for the ODE leg.', 'DESIGN.md section 2, C04 and section 8'),
 }
 
 NOT_APPLICABLE = {}
